@@ -121,6 +121,132 @@ pub proof fn lemma_script_safe(s: Seq<char>, i: int)
 /// one JavaScript string literal
 pub open spec fn sstr(s: Seq<char>) -> Seq<char> { seq!['"'] + sesc(s) + seq!['"'] }
 
+// ---- the emitted `[ "..", ".." ]` parses (scanner `jarray` of json_spec.inc, written from RFC 8259 section 7; every
+// escape the writer uses is also a JavaScript string escape with the same meaning) as exactly the strings ----
+pub open spec fn sarray_body(strs: Seq<Seq<char>>, n: int) -> Seq<char>
+    decreases n
+{
+    if n <= 0 { Seq::empty() }
+    else if n == 1 { sstr(strs[0]) }
+    else { sarray_body(strs, n - 1) + seq![','] + sstr(strs[n - 1]) }
+}
+/// scanning an escaped text followed by a quote gives the text back and stops after the quote
+pub proof fn lemma_scan(pre: Seq<char>, x: Seq<char>, post: Seq<char>)
+    ensures jscan(pre + sesc(x) + seq!['"'] + post, pre.len() as int) == Some((x, (pre.len() + sesc(x).len() + 1) as int)),
+    decreases x.len()
+{
+    let s = pre + sesc(x) + seq!['"'] + post;
+    let i = pre.len() as int;
+    if x.len() == 0 {
+        assert(sesc(x) =~= Seq::<char>::empty());
+        assert(s[i] == '"');
+    } else {
+        let c = x[0];
+        let rest = x.skip(1);
+        let e = sesc_char(c);
+        assert(sesc(x) == e + sesc(rest));
+        let pre2 = pre + e;
+        assert(pre2 + sesc(rest) + seq!['"'] + post =~= s);
+        lemma_scan(pre2, rest, post);
+        assert(seq![c] + rest =~= x);
+        assert(forall|k: int| 0 <= k < e.len() ==> s[i + k] == e[k]);
+        if c == '"' || c == '\\' {
+            assert(s[i] == '\\' && s[i + 1] == c);
+        } else if c == '<' {
+            assert(s[i] == '\\' && s[i + 1] == 'u' && s[i + 2] == '0' && s[i + 3] == '0' && s[i + 4] == '3' && s[i + 5] == 'C');
+            assert(hex_val('3') == Some(3int) && hex_val('C') == Some(12int) && hex_val('0') == Some(0int));
+            assert((0 * 4096 + 0 * 256 + 3 * 16 + 12) as char == '<');
+        } else if c == '\u{2028}' {
+            assert(s[i] == '\\' && s[i + 1] == 'u' && s[i + 2] == '2' && s[i + 3] == '0' && s[i + 4] == '2' && s[i + 5] == '8');
+            assert(hex_val('2') == Some(2int) && hex_val('8') == Some(8int) && hex_val('0') == Some(0int));
+            assert((2 * 4096 + 0 * 256 + 2 * 16 + 8) as char == '\u{2028}');
+        } else if c == '\u{2029}' {
+            assert(s[i] == '\\' && s[i + 1] == 'u' && s[i + 2] == '2' && s[i + 3] == '0' && s[i + 4] == '2' && s[i + 5] == '9');
+            assert(hex_val('2') == Some(2int) && hex_val('9') == Some(9int) && hex_val('0') == Some(0int));
+            assert((2 * 4096 + 0 * 256 + 2 * 16 + 9) as char == '\u{2029}');
+        } else if (c as int) < 0x20 {
+            lemma_hex((c as int) / 16);
+            lemma_hex((c as int) % 16);
+            assert(s[i] == '\\' && s[i + 1] == 'u' && s[i + 2] == '0' && s[i + 3] == '0');
+            assert(s[i + 4] == hex_digit_spec((c as int) / 16) && s[i + 5] == hex_digit_spec((c as int) % 16));
+            let v = 0 * 4096 + 0 * 256 + ((c as int) / 16) * 16 + (c as int) % 16;
+            assert(v == c as int);
+            assert(v as char == c);
+        } else {
+            assert(s[i] == c);
+        }
+    }
+}
+
+/// elements k..n joined by commas, then the closing bracket (as a parser consumes it: from the front)
+pub open spec fn jtail(strs: Seq<Seq<char>>, k: int, n: int) -> Seq<char>
+    decreases n - k
+{
+    if k >= n - 1 { sstr(strs[k]) + seq![']'] } else { sstr(strs[k]) + seq![','] + jtail(strs, k + 1, n) }
+}
+pub open spec fn sep_tail(strs: Seq<Seq<char>>, m: int, n: int) -> Seq<char> {
+    if m >= n { seq![']'] } else { seq![','] + jtail(strs, m, n) }
+}
+pub proof fn lemma_body_tail(strs: Seq<Seq<char>>, m: int, n: int)
+    requires 1 <= m <= n <= strs.len(),
+    ensures sarray_body(strs, m) + sep_tail(strs, m, n) =~= jtail(strs, 0, n),
+    decreases m
+{
+    if m == 1 {
+    } else {
+        lemma_body_tail(strs, m - 1, n);
+        // sep_tail(m-1) = ',' + sstr(s[m-1]) + sep_tail(m)
+        assert(sep_tail(strs, m - 1, n) =~= seq![','] + sstr(strs[m - 1]) + sep_tail(strs, m, n));
+        assert(sarray_body(strs, m) =~= sarray_body(strs, m - 1) + seq![','] + sstr(strs[m - 1]));
+    }
+}
+pub proof fn lemma_elems(pre: Seq<char>, strs: Seq<Seq<char>>, k: int, n: int)
+    requires 0 <= k < n <= strs.len(),
+    ensures jelems(pre + jtail(strs, k, n), pre.len() as int) == Some(strs.subrange(k, n)),
+    decreases n - k
+{
+    let s = pre + jtail(strs, k, n);
+    let i = pre.len() as int;
+    let x = strs[k];
+    let after = if k >= n - 1 { seq![']'] } else { seq![','] + jtail(strs, k + 1, n) };
+    assert(jtail(strs, k, n) =~= seq!['"'] + sesc(x) + seq!['"'] + after);
+    let pre2 = pre + seq!['"'];
+    assert(s =~= pre2 + sesc(x) + seq!['"'] + after);
+    lemma_scan(pre2, x, after);
+    let j = (pre2.len() + sesc(x).len() + 1) as int;
+    assert(s[i] == '"');
+    assert(jscan(s, i + 1) == Some((x, j)));
+    assert(s[j] == after[0]);
+    if k >= n - 1 {
+        assert(j + 1 == s.len());
+        assert(strs.subrange(k, n) =~= seq![x]);
+    } else {
+        let pre3 = pre2 + sesc(x) + seq!['"'] + seq![','];
+        assert(s =~= pre3 + jtail(strs, k + 1, n));
+        lemma_elems(pre3, strs, k + 1, n);
+        assert(pre3.len() == j + 1);
+        assert(strs.subrange(k, n) =~= seq![x] + strs.subrange(k + 1, n));
+    }
+}
+/// C11: the text the writer builds for n strings parses as a JSON array of exactly those strings
+pub proof fn lemma_array_roundtrip(strs: Seq<Seq<char>>, n: int)
+    requires 0 <= n <= strs.len(),
+    ensures jarray(seq!['['] + sarray_body(strs, n) + seq![']']) == Some(strs.subrange(0, n)),
+{
+    let s = seq!['['] + sarray_body(strs, n) + seq![']'];
+    if n == 0 {
+        assert(s =~= seq!['[', ']']);
+        assert(strs.subrange(0, 0) =~= Seq::<Seq<char>>::empty());
+    } else {
+        lemma_body_tail(strs, n, n);
+        assert(s =~= seq!['['] + jtail(strs, 0, n));
+        lemma_elems(seq!['['], strs, 0, n);
+        assert(sstr(strs[0]).len() >= 2);
+        assert(s.len() > 2);
+    }
+}
+
+
 //@@ hex_digit
 
 //@@ push_js_string
@@ -155,6 +281,24 @@ pub open spec fn unit_text<L: Locale, I: TranslationUnitId>(first: bool, locale:
     + lit("{\"locale\":\"") + locale.name()
     + (match id.id_name() { Some(n) => lit("\",\"id\":\"") + n + lit("\",\"values\":["), None => lit("\",\"id\":null,\"values\":[") })
     + joined(vals, vals.len() as int) + lit("]}")
+}
+
+pub open spec fn str_views(vals: Seq<&'static str>) -> Seq<Seq<char>> { Seq::new(vals.len(), |i: int| vals[i]@) }
+pub proof fn lemma_joined_is_array_body(vals: Seq<&'static str>, n: int)
+    requires 0 <= n <= vals.len(),
+    ensures joined(vals, n) == sarray_body(str_views(vals), n),
+    decreases n
+{
+    if n >= 2 { lemma_joined_is_array_body(vals, n - 1); }
+}
+/// C17: the `"values":[ .. ]` array of a unit parses as exactly that unit's strings, in order
+pub proof fn lemma_values_parse(vals: Seq<&'static str>)
+    ensures jarray(seq!['['] + joined(vals, vals.len() as int) + seq![']']) == Some(str_views(vals)),
+{
+    let v = str_views(vals);
+    lemma_joined_is_array_body(vals, vals.len() as int);
+    lemma_array_roundtrip(v, v.len() as int);
+    assert(v.subrange(0, v.len() as int) =~= v);
 }
 
 //@@ emit_unit
